@@ -59,7 +59,7 @@ Next ==
            v2 == viol \cup {<<c, i>> : c \in x.v}
        IN /\ m' = x.m
           /\ viol' = v2
-          /\ (i = Len(tr.ev) => PrintT(<<"VERDICT", tid, v2>>))
+          /\ (i = Len(tr.ev) => PrintT("VERDICT|" \o ToString(tid) \o "|" \o ToString(v2)))
     /\ i' = i + 1
     /\ UNCHANGED tid
 
